@@ -71,3 +71,16 @@ package typesystem
 //@   option nosafety
 //@   monitor scoped
 //@     before call storage.AuthorizationModelReadBackend.ReadAuthorizationModel args _, _, st, m : assert st == deref(storeID) && m == deref(modelID)
+
+// ------------------------------------------------------------------ C01 / C02: eligibility of the weight-two fast path for a tuple-to-userset
+// the fast path may be chosen only if NO matching TTU edge inspected on the way weighs more than 2 for the user type
+// (one cheap parent type does not make a TTU with a heavier parent type eligible)
+//@ func (*TypeSystem).TTUUseWeight2Resolver(t, objectType, relation, userType, ttu) (b)
+//@   property C01 C02
+//@   option nosafety
+//@   loop 0 invariant !heavy
+//@   loop 1 invariant !heavy
+//@   ensures @noHeavyParent b ==> !heavy
+//@   monitor weights
+//@     ghost heavy = false
+//@     after call (*graph.WeightedAuthorizationModelEdge).GetWeight args e, ut returning w, ok : heavy = heavy || (ok && w > 2)
